@@ -92,9 +92,22 @@ def read_set_tag(eng, obj, tag, value, value_type=None, replace=True):
     return None
 
 
+def read_get_overlap(eng, obj, start, end):
+    """pysam AlignedSegment.get_overlap(start, end): number of aligned bases inside [start, end) - at most the length of the
+    interval and of the alignment span, zero when they are disjoint (A4)"""
+    from .engine import fresh, INT, zterm
+    import z3
+    v = fresh(INT, 'overlap')
+    s_, e_ = zterm(start, INT), zterm(end, INT)
+    rs, re_ = zterm(obj.attrs['reference_start'], INT), zterm(obj.attrs['reference_end'], INT)
+    lo, hi = z3.If(s_ > rs, s_, rs), z3.If(e_ < re_, e_, re_)
+    eng.assume(z3.And(v.z >= 0, z3.Implies(hi <= lo, v.z == 0), z3.Implies(hi > lo, v.z <= hi - lo)))
+    return v
+
+
 STUBS = {
     'AlignedSegment': {
-        'methods': {'has_tag': read_has_tag, 'get_tag': read_get_tag, 'set_tag': read_set_tag},
+        'methods': {'has_tag': read_has_tag, 'get_tag': read_get_tag, 'set_tag': read_set_tag, 'get_overlap': read_get_overlap},
         'props': {}, 'setters': {},
     },
 }
